@@ -75,6 +75,30 @@ def check_c19(tier):
     return rep.finish()
 
 
+def writer_faults(rep, pid, tier, only):
+    """The failing-destination sweep of C19 restricted to the serializers whose name contains `only` (used by C04: the byte
+    count the bundle writer returns equals what it handed to the destination, on failure as on success)."""
+    wd = workdir(pid)
+    p = os.path.join(wd, "wf.ndjson")
+    vh_to_file(["wf-run", tier, only], p, timeout=3000)
+    cases = {}
+    for line in open(p):
+        d = json.loads(line)
+        d.pop("O", None)
+        cases[d["case"]] = d
+    n, rejects, states = trace_validate("Trace_Writer", pid + "/wf", p, shards=16, timeout=3000)
+    rep.cov["states"] += states
+    rep.cov["transitions"] += states
+    rep.cov["traces_validated_against_impl"] += n
+    for rj in rejects:
+        c = cases[rj["case"]]
+        for w in rj["why"]:
+            rep.violation("wf:%s:%s:%s:%s" % (c["ser"], c["mode"], c["dest"], w[:40]), "%s with the destination failing after %d bytes (%s, dest %s): returned error=%s count=%s, accepted %d bytes: %s" % (
+                c["ser"], c["k"], c["mode"], c["dest"], c["reterr"], c["count"], len(c["accepted"]), w), {"component": "wf", "ser": c["ser"], "k": c["k"], "mode": c["mode"], "dest": c["dest"], "why": w})
+    rep.add("failing_destinations", runs=n, rejected=len(rejects))
+    return n
+
+
 def replay_c19(path):
     log("replay: re-running the check family on the current tree")
     return check_c19("quick")
